@@ -87,6 +87,43 @@ def random_inputs(p, rnd):
     return inputs
 
 
+def structured_schedule(p, rnd):
+    """A schedule (rows of the `sched` relation of a BYODS history-interpreter program) built from closure-relevant
+    shapes - fans, diamonds, chains, cycles, bridges between cycles - over a random numbering of 8 nodes, released over the
+    iterations 0..2 in a random order, plus a few unrelated edges (they move the size heuristics of the merge routines)."""
+    sched = next(r for r in p["rels"] if r["name"] == "sched")
+    keyed = len(sched["cols"]) == 4
+    nodes = list(range(8))
+    rnd.shuffle(nodes)
+    a, b, c, d, e, f, g, h = nodes
+    shapes = {
+        "fan": [(b, c), (b, d), (a, b), (a, c)],                       # a -> {b, c}, b -> {c, d}
+        "fan_in": [(c, b), (d, b), (b, a), (c, a)],
+        "diamond": [(a, b), (a, c), (b, d), (c, d), (d, e)],
+        "chain": [(a, b), (b, c), (c, d), (d, e)],
+        "cycle": [(a, b), (b, c), (c, a), (c, d)],
+        "two_cycles": [(a, b), (b, a), (c, d), (d, c), (b, c)],
+        "self": [(a, a), (b, a), (a, b), (b, c)],
+    }
+    edges = list(rnd.choice(sorted(shapes.values())))
+    for _ in range(rnd.choice([0, 1, 2, 3])):
+        edges.append((rnd.choice(nodes), rnd.choice(nodes)))             # unrelated / extra edges
+    rnd.shuffle(edges)
+    # release order: mostly "the inner edges first", sometimes everything at once or one per iteration
+    mode = rnd.choice(["split", "split", "random", "same"])
+    rows, seen = [], set()
+    for k, (x, y) in enumerate(edges):
+        it = 0 if mode == "same" else (rnd.randrange(3) if mode == "random" else (0 if k < len(edges) // 2 else rnd.choice([1, 1, 2])))
+        row = [it] + ([rnd.randrange(2)] if keyed else []) + [x, y]
+        if json.dumps(row[1:]) in seen:
+            continue
+        seen.add(json.dumps(row[1:]))
+        rows.append(row)
+    inputs = {r["name"]: [] for r in p["rels"] if r["input"]}
+    inputs["sched"] = rows
+    return inputs
+
+
 def thorough_bounds(p):
     p = dict(p)
     nin = sum(1 for r in p["rels"] if r["input"])
@@ -243,6 +280,9 @@ def run(pid, tier, seed, replay=None):
                 continue
             for k in range(per_prog):
                 rnd_items.append({"id": len(rnd_items) + 1, "pi": pidx[p["name"]], "inputs": random_inputs(p, rnd), "prog": p})
+            if any(r["name"] == "sched" for r in p["rels"]) and "ds" in p["tags"]:
+                for k in range(int(per_prog * 1.5)):
+                    rnd_items.append({"id": len(rnd_items) + 1, "pi": pidx[p["name"]], "inputs": structured_schedule(p, rnd), "prog": p})
         lms, evres = semlib.eval_least_models(sel, rnd_items, work)
         for r in evres:
             out.add_tlc(r, "SemEval (least models of the seeded random databases)")
